@@ -64,7 +64,8 @@ def _tm_flatten(rep, rule, top, depth=0):
             if 'match' in tgt:
                 out.append([tgt.get('name', 'unnamed'), tgt['match']])
             elif 'begin' in tgt:
-                out.append(['BEGIN:' + ch['include'].lstrip('#'), tgt['begin']])
+                cap0 = ((tgt.get('beginCaptures') or {}).get('0') or {}).get('name')
+                out.append([cap0 or ('BEGIN:' + ch['include'].lstrip('#')), tgt['begin']])
             else:
                 out += _tm_flatten(rep, tgt, False, depth + 1)
         elif 'match' in ch:
@@ -127,7 +128,8 @@ def inspect_extension(d, spec, out):
                                 if p.get('name') == 'keyword.control.preprocessor':
                                     res['patterns']['preprocessor'] = p['match']
                     res['scopeName'] = g.get('scopeName')
-                    res['contexts'] = {'operand': _tm_flatten(rep, rep['instructions'], True),
+                    res['contexts'] = {'main': _tm_flatten(rep, rep['main'], False),
+                                       'operand': _tm_flatten(rep, rep['instructions'], True),
                                        'bracket': _tm_flatten(rep, rep['indirect-addressing'], True)}
                     if 'macros' in rep:
                         res['contexts']['macro-operand'] = _tm_flatten(rep, rep['macros'], True)
@@ -178,7 +180,7 @@ def inspect_extension(d, spec, out):
                                     if 'match' in rule and '(?<=\\#)' in rule['match']:
                                         res['patterns']['preprocessor'] = rule['match']
                             res['file_extensions'] = s.get('file_extensions')
-                            res['contexts'] = {}
+                            res['contexts'] = {'main': _sub_flatten(c, c['main'])}
                             for it in c['instructions']:
                                 key = {'variable.function.instruction': 'operand', 'variable.function.macro': 'macro-operand'}.get(it.get('scope'))
                                 if key and isinstance(it.get('push'), list):
